@@ -1573,32 +1573,5 @@ Section KeysetReader.
     induction ns as [|n ns IH]; intros d m Hm; cbn [dr_reads reads]; [reflexivity|].
     unfold dr_read. rewrite Hm.
     destruct (read (SDEC (m_key m) (m_sk m)) urfull (k_rparams (m_key m) (m_prefix m)) (m_st m) n) as (st', r).
-    rewrite (IH _ (mkM (m_key m) (m_sk m) (m_prefix m) st') eq_refl). cbn [m_key m_sk m_prefix m_st].
-    destruct (reads _ _ _ st' ns). reflexivity.
-  Qed.
-
-  Lemma dr_reads_failed keys aad : forall ns d, dr_m d = None -> dr_attempted d = true ->
-    dr_reads keys aad d ns = map (fun _ => RErr) ns.
-  Proof.
-    induction ns as [|n ns IH]; intros d Hm Ha; cbn [dr_reads map]; [reflexivity|].
-    unfold dr_read. rewrite Hm, Ha. f_equal. apply IH; assumption.
-  Qed.
-
-  (* (f) for every first-Read size and every later Read *)
-  Theorem keyset_reader_spec : forall keys aad c0 sizes,
-    dr_reads keys aad (dr_new c0) sizes = spec_reads keys aad c0 sizes.
-  Proof.
-    intros keys aad c0 [|n ns]; [reflexivity|]. cbn [dr_reads spec_reads].
-    unfold dr_read at 1. cbn [dr_new dr_m dr_attempted dr_cr].
-    assert (HU : UI c0 (mkU [] 0 false c0)).
-    { split; [reflexivity|]. unfold whole. cbn. destruct c0 as [r [f|]]; reflexivity. }
-    pose proof (dr_try_spec aad n c0 keys _ HU eq_refl) as H.
-    destruct (DRTRY keys aad (mkU [] 0 false c0) n) as ((m, u'), r).
-    destruct H as (Hr & Hm). destruct (dr_spec keys aad c0 n) as (sp, r'). cbn [fst snd] in *. subst r'.
-    destruct m as [m|]; destruct sp as [[[[k sk] pre] st']|]; try contradiction.
-    - destruct Hm as (<- & <- & <- & <-). f_equal.
-      rewrite (dr_reads_matched keys aad ns _ m eq_refl).
-      apply (reads_sim ureader src urfull read_full flat urfull_flat).
-    - f_equal. apply dr_reads_failed; reflexivity.
-  Qed.
-End KeysetReader.
+    rewrite (IH _ (mkM (m_key m) (m_sk m) (m_prefix m) st') 
+Show.
